@@ -33,9 +33,11 @@ ASSUMPTIONS = [
 
 
 def outcome(obs):
+    if obs.timed_out:
+        return ["timed_out"]
     if obs.exception is not None:
-        return ["raised", type(obs.exception).__name__]
-    if obs.result is not None and obs.result.errored:
+        return ["raised", obs.exception_type]
+    if obs.errored:
         return ["errored"]
     return ["ok", obs.outputs]
 
@@ -51,6 +53,9 @@ def check_case(case):
             if o[0] in ("raised", "errored"):  # normalise: a failed workflow is a failed workflow
                 o = ["failed"]
             outs.append(o)
+        if ["timed_out"] in outs:  # inconclusive configuration (C18 owns termination): not compared
+            case["_timed_out"] = True
+            return []
         base = outs[0]
         for i, o in enumerate(outs[1:], 1):
             if o != base:
@@ -99,5 +104,7 @@ def run(sh):
                     raise_unattributed=True)
         if case.pop("_agree", False):
             sh.count("all_configs_equal_reference")
+        if case.pop("_timed_out", False):
+            sh.count("inconclusive_timed_out")
 
     sh.given(cases(), body, sh.budget(48, 700), tag="diff")
